@@ -8,7 +8,7 @@ import exportsm as sm
 import harness
 import vlib
 
-TYPES = ["A", "B", "C", "D", "U1", "U2", "C2", "F"]
+TYPES = ["A", "B", "C", "D", "U1", "U2", "C2", "F", "U2low"]   # U2low is declared as `u2` in shared.ts: a name that differs from a file-mate in case only
 # spellings of one directory (relative to the cwd @R/w/c): all denote @R/w/c/bindings
 SPELLINGS = ["./bindings", "bindings/", "@R/w/c/bindings", "./y/../bindings", "bindings/./"]
 # TS_RS_EXPORT_DIR settings with the directory they denote
